@@ -89,6 +89,37 @@ func refEqual(a, b *ref.Payload) string {
 	return ""
 }
 
+// refSADiff compares the reference peer's parse of an SA payload with the spec. Transforms
+// appear on the wire grouped by type in the order encr, prf, integ, dh, esn.
+func refSADiff(p *PayloadSpec, got []ref.SAProposal) string {
+	if len(got) != len(p.Proposals) {
+		return "proposal count"
+	}
+	for i, pr := range p.Proposals {
+		g := got[i]
+		if g.Num != pr.Num || g.Proto != pr.Proto || !bytes.Equal(g.SPI, pr.SPI) {
+			return "proposal header"
+		}
+		var want []TransformSpec
+		for _, l := range [][]TransformSpec{pr.Encr, pr.Prf, pr.Integ, pr.DH, pr.ESN} {
+			want = append(want, l...)
+		}
+		if len(want) != len(g.Transforms) {
+			return "transform count"
+		}
+		for j, t := range want {
+			x := g.Transforms[j]
+			if x.Type != t.Type || x.ID != t.ID || x.HasAttr != t.HasAttr {
+				return "transform header"
+			}
+			if t.HasAttr && (x.TV != t.TV || x.AType != t.AType || (t.TV && x.AValue != t.AValue) || (!t.TV && !bytes.Equal(x.AVar, t.AVar))) {
+				return "transform attribute"
+			}
+		}
+	}
+	return ""
+}
+
 func dirKeys(sa *SA, from string) (enc, integ []byte) {
 	if from == "I" {
 		return sa.Keys.SKei, sa.Keys.SKai
@@ -137,6 +168,18 @@ func c06Send(c *sendCtx) {
 		if rp.Type != kindType[p.Kind] {
 			w.violate("inner_chain_wrong", "type", "inner payload %d has type %d, message has %s", i, rp.Type, p.Kind)
 			return
+		}
+		if p.Kind == "SA" {
+			props, err := ref.DecodeSA(rp.Body)
+			if err != nil {
+				w.violate("inner_payload_wrong", "SA/"+normMsg(err.Error()), "the independent peer cannot parse the inner SA payload: %v", err)
+				return
+			}
+			if d := refSADiff(p, props); d != "" {
+				w.violate("inner_payload_wrong", "SA/"+d, "inner SA payload parsed by the independent peer differs from the message (%s)", d)
+				return
+			}
+			w.stats.inc("c06_sa_payloads_parsed_by_reference")
 		}
 		if want, ok := toRef(p); ok {
 			got, err := ref.DecodeBody(rp.Type, rp.Body)
@@ -339,7 +382,7 @@ func genC06(r *Rng, idx int, tier string) *Scenario {
 			if r.Chance(1, 6) {
 				st.IV = bytes.Repeat([]byte{Pick[uint8](r, 0, 0xff)}, 16)
 			}
-			if r.Chance(1, 5) {
+			if r.Chance(1, 5) || (len(st.Msg.Payloads) == 0 && r.Bool()) {
 				st.Ref = 1 + r.Intn(len(st.Msg.Payloads)+1)
 				if r.Bool() {
 					st.Ref = 1
